@@ -63,10 +63,14 @@ static int h_init(void *ptr, const void *src)
 	h_live[bi][si] = 1; h_inits++;
 	return 0;
 }
+/* identity watch: counts the finalisations of THE element whose first byte is h_watch_val (the harness makes that byte
+ * unique among the elements), so that 'which element was finalised' is decided, not only 'how many' */
+static int h_watch_on, h_watch_fins; static uint8_t h_watch_val;
 static void h_fini(void *ptr)
 {
 	int bi; size_t si;
 	h_slot(ptr, &bi, &si);
+	if (h_watch_on && h_pool_(bi)->data[si * ESZ] == h_watch_val) h_watch_fins++;
 	__CPROVER_assert(h_alive[bi], "element fini: buffer is alive");
 	__CPROVER_assert(h_live[bi][si], "element fini: element is alive (no double destroy, no destroy of a non-element)");
 	h_live[bi][si] = 0; h_finis++;
